@@ -174,6 +174,9 @@ func protoApply(op string, raw json.RawMessage) interface{} {
 	if err := json.Unmarshal(raw, &a); err != nil {
 		panic(err)
 	}
+	if op == "race" {
+		return protoRace(a)
+	}
 	if op != "session" {
 		panic("verif: unknown op " + op)
 	}
@@ -356,6 +359,62 @@ func verifWaitParked(fn string) {
 		}
 		time.Sleep(50 * time.Microsecond)
 	}
+}
+
+// protoRace: several sessions announce the same node ID at the same moment.  However their
+// handshakes interleave, at most one of them may end up as the established connection.
+func protoRace(a protoArgs) interface{} {
+	self := string(verifUnhex(a.Self))
+	s, cancel := verifQuietNode(self, 30)
+	defer cancel()
+	s.sendRouteFloodChan, s.updateRoutingTableChan = make(chan time.Duration, 4096), make(chan time.Duration, 4096)
+	bi := &BackendInfo{connectionCost: 1}
+	k := len(a.Conns) // number of racing sessions
+	ctx, cancelAll := context.WithCancel(s.context)
+	defer cancelAll()
+	hs := verifUnhex(a.Script[0].Raw)
+	start := make(chan struct{})
+	type res struct{ alive bool }
+	results := make(chan res, k)
+	for i := 0; i < k; i++ {
+		sess := &protoSession{script: [][]byte{hs, {0x7f}, {0x7f}}, calls: make(chan int), resume: make(chan struct{}), ctx: ctx, eof: make(chan struct{})}
+		ret := make(chan struct{})
+		go func() {
+			defer close(ret)
+			defer func() { _ = recover() }()
+			_ = s.runProtocol(ctx, sess, bi)
+		}()
+		go func() {
+			<-start
+			for {
+				select {
+				case c := <-sess.calls:
+					if c == 2 { // the handshake datagram has been handled and the session is still running
+						results <- res{alive: true}
+						return
+					}
+					sess.resume <- struct{}{}
+				case <-ret:
+					results <- res{alive: false}
+					return
+				case <-time.After(10 * time.Second):
+					results <- res{alive: false}
+					return
+				}
+			}
+		}()
+	}
+	close(start)
+	alive := 0
+	for i := 0; i < k; i++ {
+		if r := <-results; r.alive {
+			alive++
+		}
+	}
+	s.connLock.RLock()
+	registered := len(s.connections)
+	s.connLock.RUnlock()
+	return map[string]interface{}{"ok": map[string]interface{}{"established": alive, "registered": registered}}
 }
 
 // ---- generator
@@ -561,7 +620,11 @@ func protoGen(v *verifRun) {
 				}
 				add(protoRoute(body))
 			case 8: // semantically absurd but well-typed updates
-				switch v.rng.Intn(6) {
+				switch v.rng.Intn(8) {
+				case 6: // suspected-duplicate notice about a node nobody has heard of / about a known one
+					add(protoRoute(protoUpdate("ghost", peer, jObj(jK("y", jNum("1"))), jK("SuspectedDuplicate", jNum("5")), jK("UpdateID", jStr("id-ghost")))))
+				case 7:
+					add(protoRoute(protoUpdate(peer, peer, jObj(jK(self, jNum(costLit(effCost)))), jK("SuspectedDuplicate", jNum("77")), jK("UpdateID", jStr("id-sd")))))
 				case 0:
 					add(protoRoute(protoUpdate("x", peer, jObj(jK("y", jNum("-1")), jK(self, jNum("1"))))))
 				case 1:
@@ -597,6 +660,13 @@ func protoGen(v *verifRun) {
 		}
 		a.Script = script
 		v.do(protoApply, "session", a)
+		if i%3 == 0 { // racing handshakes of 2..4 sessions announcing one ID
+			r := protoArgs{Self: hx(self), Cost: 1, NodeCost: map[string]float64{}, Script: []protoDgram{protoRoute(protoUpdate(peer, peer, jObj()))}}
+			for k := 2 + v.rng.Intn(3); k > 0; k-- {
+				r.Conns = append(r.Conns, hx("racer"))
+			}
+			v.do(protoApply, "race", r)
+		}
 	}
 }
 
